@@ -22,6 +22,8 @@ def stepRules (body : String) : String :=
     match decodeSpec 2 (specS.splitOn " " |>.filter (· ≠ "")) with
     | none => "bad-op"
     | some p =>
+      -- the measured compiler fact: does `? type` give the field presence?
+      let optPres := (specS.splitOn " ").contains "optpres=1"
       if (patternsOf p).any (fun pat => (parseSmallRe pat).isNone) then "skip"
       else
         match compileRules p with
@@ -30,10 +32,10 @@ def stepRules (body : String) : String :=
         | .ok c =>
           let toks := valsS.splitOn " " |>.filter (· ≠ "")
           let vs := toks.map fun t =>
-            match parseVal p t with
+            match parseVal optPres p t with
             | none => '?'
-            | some v => verdictChar (pvField smallMatcher (definedOf p) c p.hasPresence v)
-          showFC c ++ " pres=" ++ b01 p.hasPresence ++ " | " ++ String.ofList vs
+            | some v => verdictChar (pvField smallMatcher (definedOf p) c (p.hasPresence optPres) v)
+          showFC c ++ " pres=" ++ b01 (p.hasPresence optPres) ++ " | " ++ String.ofList vs
   | _ => "bad-op"
 
 def stepSchema (body : String) : String :=
